@@ -8,6 +8,8 @@ LEMMAS = {
     "L2quick": lambda prog, res: lemmas.lemma_L2(prog, res, methods=["section_data", "segment_data_as_notes"], classes=("ELF64",)),
     "L3": lambda prog, res: lemmas.lemma_L3(prog, res),
     "L5": lambda prog, res: lemmas.lemma_L5(prog, res),
+    "L7": lambda prog, res: lemmas.lemma_L7(prog, res),
+    "L7both": lambda prog, res: lemmas.lemma_L7(prog, res, classes=("ELF32", "ELF64")),
 }
 
 
